@@ -231,8 +231,123 @@ fn r<T>(x: std::io::Result<T>) -> Result<T, Res> {
     x.map_err(|e| Res::Err(errs(&e)))
 }
 
+thread_local! {
+    /// every operation that exists in the tokio shim goes through it (opens with all their
+    /// option combinations, path operations, positional I/O, syncs); the observation sweep
+    /// stays on the std shim
+    static ALL_TOKIO: std::cell::Cell<bool> = const { std::cell::Cell::new(false) };
+}
+
+pub fn set_all_tokio(on: bool) {
+    ALL_TOKIO.with(|t| t.set(on));
+}
+
+fn exec_tokio(op: Op) -> Option<Result<Res, Res>> {
+    use tokio::io::AsyncWrite;
+    let go = || -> Result<Res, Res> {
+        Ok(match op {
+            Op::Create(f) => {
+                r(block(tfs::OpenOptions::new().write(true).create(true).open(FILES[f as usize])))?;
+                Res::Ok
+            }
+            Op::CreateNew(f) => {
+                r(block(tfs::OpenOptions::new().write(true).create_new(true).open(FILES[f as usize])))?;
+                Res::Ok
+            }
+            Op::OpenTrunc(f) => {
+                r(block(tfs::OpenOptions::new().write(true).create(true).truncate(true).open(FILES[f as usize])))?;
+                Res::Ok
+            }
+            Op::WriteAt(f, o, d, Front::Std) => {
+                let h = r(block(tfs::OpenOptions::new().write(true).open(FILES[f as usize])))?;
+                Res::Count(r(block(h.write_at(DATA[d as usize], o as u64)))?)
+            }
+            Op::Append(f) => {
+                let mut h = r(block(tfs::OpenOptions::new().append(true).open(FILES[f as usize])))?;
+                let w = std::task::Waker::noop();
+                let mut cx = std::task::Context::from_waker(w);
+                match std::pin::Pin::new(&mut h).poll_write(&mut cx, b"q") {
+                    std::task::Poll::Ready(x) => Res::Count(r(x)?),
+                    std::task::Poll::Pending => panic!("tokio-shim write did not complete immediately"),
+                }
+            }
+            Op::SetLen(f, n) => {
+                let h = r(block(tfs::OpenOptions::new().write(true).open(FILES[f as usize])))?;
+                r(block(h.set_len(n as u64)))?;
+                Res::Ok
+            }
+            Op::ReadAt(f, o, l, Front::Std) => {
+                let h = r(block(tfs::File::open(FILES[f as usize])))?;
+                let mut buf = vec![0xEEu8; l as usize];
+                let n = r(block(h.read_at(&mut buf, o as u64)))?;
+                Res::Bytes(buf[..n].to_vec())
+            }
+            Op::RenameF(a, b) => {
+                r(block(tfs::rename(FILES[a as usize], FILES[b as usize])))?;
+                Res::Ok
+            }
+            Op::RenameD(a, b) => {
+                r(block(tfs::rename(DIRS[a as usize], DIRS[b as usize])))?;
+                Res::Ok
+            }
+            Op::RemoveFile(f) => {
+                r(block(tfs::remove_file(FILES[f as usize])))?;
+                Res::Ok
+            }
+            Op::Mkdir(d) => {
+                r(block(tfs::create_dir(DIRS[d as usize])))?;
+                Res::Ok
+            }
+            Op::MkdirAll(d) => {
+                r(block(tfs::create_dir_all(DIRS[d as usize])))?;
+                Res::Ok
+            }
+            Op::Rmdir(d) => {
+                r(block(tfs::remove_dir(DIRS[d as usize])))?;
+                Res::Ok
+            }
+            Op::RmdirAll(d) => {
+                r(block(tfs::remove_dir_all(DIRS[d as usize])))?;
+                Res::Ok
+            }
+            Op::SyncAll(f, Front::Std) => {
+                let h = r(block(tfs::OpenOptions::new().write(true).open(FILES[f as usize])))?;
+                r(block(h.sync_all()))?;
+                Res::Ok
+            }
+            Op::SyncAllRO(f) => {
+                let h = r(block(tfs::File::open(FILES[f as usize])))?;
+                r(block(h.sync_all()))?;
+                Res::Ok
+            }
+            Op::SyncData(f) => {
+                let h = r(block(tfs::OpenOptions::new().write(true).open(FILES[f as usize])))?;
+                r(block(h.sync_data()))?;
+                Res::Ok
+            }
+            Op::SyncDir(d) => {
+                r(block(tfs::sync_dir(dir_name(d))))?;
+                Res::Ok
+            }
+            _ => return Err(Res::Err("\u{0}not-a-tokio-letter".into())),
+        })
+    };
+    match go() {
+        Err(Res::Err(e)) if e == "\u{0}not-a-tokio-letter" => None,
+        x => Some(x),
+    }
+}
+
 /// Execute on the implementation (an `Fs` must be entered).
 pub fn exec_impl(op: Op) -> Res {
+    if ALL_TOKIO.with(|t| t.get()) {
+        if let Some(x) = exec_tokio(op) {
+            return match x {
+                Ok(x) => x,
+                Err(e) => e,
+            };
+        }
+    }
     let go = || -> Result<Res, Res> {
         Ok(match op {
             Op::Create(f) => {
